@@ -229,6 +229,13 @@ func slotOf(v ssa.Value) (base ssa.Value, fname string, ok bool) {
 	// v is an address: FieldAddr(base, f), or a captured cell (Alloc / FreeVar)
 	switch x := v.(type) {
 	case *ssa.FieldAddr:
+		// a field of a struct embedded by value is a field of the enclosing object: there is at most
+		// one embedded field of a type, so (object, inner field) names the slot
+		if outer, ok := x.X.(*ssa.FieldAddr); ok {
+			if st, ok := outer.X.Type().Underlying().(*types.Pointer).Elem().Underlying().(*types.Struct); ok && st.Field(outer.Field).Embedded() {
+				return canonBase(outer.X), fieldName(x), true
+			}
+		}
 		return canonBase(x.X), fieldName(x), true
 	case *ssa.Alloc:
 		if x.Heap {
